@@ -95,6 +95,16 @@ class NotificationManager(Runnable):
         """Add notification to the queue"""
         self.__queue.put(e)
 
+    def start(self, **kwargs):  # pylint: disable=arguments-differ
+        """Start the server"""
+        # A stop marker the previous run never read (its loop left on the stop flag, e.g. because stop() arrived while a
+        # handler was running) is not a request to stop this run: drop stale markers, keep the notifications.
+        with self.__queue.mutex:
+            pending = [e for e in self.__queue.queue if e is not None]
+            self.__queue.queue.clear()
+            self.__queue.queue.extend(pending)
+        super().start(**kwargs)
+
     def stop(self, forever=True, wait=True):
         """Stop the server"""
         self.__queue.put(None)
